@@ -503,7 +503,11 @@ class Report:
         self.cov["evaluations"] += n
 
     def nontrivial(self, key):
-        self._distinct.add(key if isinstance(key, (str, int, tuple)) else json.dumps(key, sort_keys=True))
+        if not isinstance(key, (str, int)):
+            key = json.dumps(key, sort_keys=True)
+        if isinstance(key, str) and len(key) > 40:
+            key = hashlib.sha1(key.encode("utf-8", "surrogatepass")).digest()     # (millions of sources do not fit into memory)
+        self._distinct.add(key)
 
     def sample(self, s, limit=6):
         if len(self.cov["samples"]) < limit:
